@@ -13,6 +13,17 @@ Decided structurally:
   R4 raw bytes         written bytes = as_bytes(map value); read value = from_vec(fs::read(file)),
                        variable name = file stem
   R5 confinement       all mutating effects of the writer are below <layer>/{env,env.build,env.launch}
+  R6 completeness      every entry of a delta is written: the file write runs once per element of self.entries (no
+                       filter / take / skip stage, no break / early Ok out of the loop, no `continue` around it) and under no
+                       condition other than "entries is non-empty" and earlier successes; scope directories are created
+                       recursively (env.launch/<p> when env.launch itself was not created).  Every listed file of a scope
+                       directory reaches the delta insert (listing visited to exhaustion, no positional truncation), and
+                       whether it does never depends on the file's content; every sub-directory of env.launch is read as a
+                       process environment, guarded by a directory test of that entry and by nothing foreign to it; the
+                       process name is the unmodified directory name; a base scope directory is read whenever it exists
+                       (R1/reader/scope-guard); the Result of the removal / creation / write is not discarded (R3/../result)
+  R7 anchor callers    LayerRef::write_env / trait_api write_layer call write_to_layer_dir on every successful path, propagate
+                       its Result and hand it <layers_dir>/<layer name>; read_env / read_layer read from the same directory
 Not decided: byte-exact file names for exotic variable names (std::path stem/extension splitting),
 "applies identically" at the value level, non-unix targets.
 
@@ -49,6 +60,10 @@ def run(ctx, rep):
     rep.rule('R3', 'stale files: directory removed before (re)creation, unconditionally for all base scopes, launch before process dirs')
     rep.rule('R4', 'raw bytes: written data = as_bytes(value); read value = from_vec(fs::read(file)); name = file stem')
     rep.rule('R5', 'writer effects confined to <layer>/{env, env.build, env.launch}')
+    rep.rule('R6', 'completeness: every entry of a delta is written (no filter / early exit / extra guard), every listed file and '
+                   'process directory is read, independent of file contents; scope directories are created recursively')
+    rep.rule('R7', 'anchor callers (LayerRef::write_env / read_env, trait_api write_layer / read_layer): the env is written '
+                   'unconditionally, its result propagated, into / read from <layers_dir>/<layer name>')
     rep.not_decided = ['file-name splitting for exotic variable names (delegated to std::path)',
                        'equality of apply() results at the value level', 'non-unix cfg branches']
     # writer side: values in which a Vec grown through `&mut` (vec![..] + extend / push) before it is iterated is the
@@ -243,3 +258,241 @@ def run(ctx, rep):
         rep.check(ok, 'R5', 'writer/%s/%s@%s' % (e.call.fn.path.split('::')[-1], e.call.name, first), e.where(),
                   '%s below <layer>/%s' % (e.kind, first), '%s on %s: outside the env directories of the layer' % (e.kind, vstr(e.path)[:120]))
     rep.floor('R5', 'mutating_effects', n)
+    new_obligations(ctx, rep, prog, sl, slw, E, wd, wf, rf, weffs, nested, root)
+
+
+DIR_TESTS = ('std::path::Path::is_dir', 'std::fs::FileType::is_dir', 'std::fs::Metadata::is_dir')
+SCOPE_DIR_TESTS = ('std::path::Path::is_dir', 'std::path::Path::exists', 'std::path::Path::try_exists')
+
+
+def _short(fn):
+    return fn.path.split('::')[-1]
+
+
+def new_obligations(ctx, rep, prog, sl, slw, E, wd, wf, rf, weffs, nested, root):
+    from .lib.discard import result_fates, verdict
+    wdw = '%s:%d' % (wd.file, wd.line)
+    # ---- R3 (results) ---------------------------------------------------------------------------
+    # the removal / creation / write only count when their failure is not silently dropped: at every level of the call
+    # chain the Result is propagated (`?`, returned, matched with the error read) or panics
+    seen = set()
+    for e in weffs:
+        for call in [l.call for l in e.chain] + [e.call]:
+            if id(call) in seen or not (call.dty or '').startswith('std::result::Result<'):
+                continue
+            seen.add(id(call))
+            vd = verdict(result_fates(prog, call.fn, call))
+            subj = 'dir-writer/result/' + (call.name or '?').split('::')[-1]
+            if vd == 'unproven':
+                rep.unproven('R3', subj, call.where(), 'what happens to the Result of %s is not decided' % call.name)
+            else:
+                rep.check(vd in ('ok', 'panics'), 'R3', subj, call.where(), 'a failure of %s is propagated' % (call.name or '?').split('::')[-1],
+                          'the Result of %s is discarded: when it fails the writer still reports success (stale files survive / files are missing)' % call.name)
+    # ---- R6 writer -----------------------------------------------------------------------------
+    is_entries = lambda v: H._is_entries(wd, v)
+    writes = [e for e in weffs if e.kind == 'WRITE']
+    covered = set()
+    all_variants = {v['name'] for v in prog.adt(L.MB)['variants']}
+    for e in writes:
+        found, probs, unknown = H.completeness(E, e, is_entries)
+        if found:
+            probs = probs + H.per_iteration(E, e, is_entries)
+        if probs:
+            rep.violated('R6', 'writer/every-entry', e.where(), 'not every entry of the delta is written: ' + '; '.join(sorted(set(probs))))
+        elif unknown or not found:
+            rep.unproven('R6', 'writer/every-entry', e.where(), 'the file write is not recognised as running once per entry of self.entries: %s'
+                         % ('; '.join(unknown) or 'no iteration over self.entries around it'))
+        else:
+            rep.holds('R6', 'writer/every-entry', e.where(), 'one file is written for every entry of self.entries (no filter, no early exit)')
+        gp, variants = H.write_guard_problems(E, e, wd)
+        rep.check(not gp, 'R6', 'writer/entry-guards', e.where(), 'the write of an entry is conditional on nothing but earlier successes',
+                  'the write of an entry is conditional on %s: entries for which it does not hold are silently not persisted' % gp)
+        covered |= (all_variants if variants is None else variants)
+    if not writes:
+        rep.unproven('R6', 'writer/every-entry', wdw, 'no file write among the effects of the per-directory writer')
+    else:
+        rep.check(covered >= all_variants, 'R6', 'writer/behaviours', wdw, 'entries of every modification behaviour are written',
+                  'entries with behaviour %s are never written' % sorted(all_variants - covered))
+    mk = [e for e in weffs if e.kind == 'MKDIR']
+    if not mk:
+        rep.unproven('R6', 'writer/mkdir-recursive', wdw, 'no directory creation recognised in the per-directory writer')
+    for e in mk:
+        rec = e.call.is_('std::fs::create_dir_all')
+        rep.check(rec or not nested, 'R6', 'writer/mkdir-recursive', e.where(), 'scope directories are created with their missing parents',
+                  '%s creates one level only, but %s lives inside a scope directory that is not created when its own delta is empty: '
+                  'writing an environment with process entries and no launch entries fails' % (e.call.name, nested))
+    # ---- R6 / R1 reader ------------------------------------------------------------------------
+    h = prog.fn(L.R_DIR)
+    hdw = '%s:%d' % (h.file, h.line)
+    Ei = Effects(prog, sl, vocab={L.INSERT: ('INSERT', None)})
+    hroot = L.param_pred(h, 0)
+
+    def listing_of(pred):
+        def f(v):
+            t = strip(v)
+            return t[0] == 'call' and t[1] == 'std::fs::read_dir' and len(t[2]) == 1 and pred(t[2][0])
+        return f
+    ins = [e for e in Ei.expand(h, 'may') if e.kind == 'INSERT']
+    if not ins:
+        rep.unproven('R6', 'reader/every-file', hdw, 'no insert into the delta among the effects of the per-directory reader')
+    for e in ins:
+        found, probs, unknown = H.completeness(Ei, e, listing_of(lambda a: hroot(strip(a))), allow_filter='file-type')
+        if probs:
+            rep.violated('R6', 'reader/every-file', e.where(), 'not every file of the directory is read: ' + '; '.join(sorted(set(probs))))
+        elif unknown or not found:
+            rep.unproven('R6', 'reader/every-file', e.where(), 'the insert is not recognised as running for every listed file: %s'
+                         % ('; '.join(unknown) or 'no iteration over read_dir(<directory>) around it'))
+        else:
+            rep.holds('R6', 'reader/every-file', e.where(), 'the listing of the directory is visited to exhaustion')
+        cg = H.content_guards(Ei, e)
+        rep.check(not cg, 'R6', 'reader/entry-guards', e.where(), 'whether a file becomes an entry does not depend on its content',
+                  'whether a file becomes an entry depends on its content (%s): a written entry with such a value does not read back' % [repr(c) for c in cg])
+    # under every extension scenario that yields an entry: a listed entry that is not a directory cannot be passed over
+    # (a name- or content-dependent `continue`, a None smuggled into the behaviour) — evaluated on the scenario-pruned CFG
+    _, rs6, rinfo6 = H.reader_behaviour(prog, sl)
+    mi_probs, mi_unknown = [], []
+    for ext in [None] + [x[1:] for x in SPEC_SUFFIX.values()]:
+        if ext in rinfo6.get('undecided', set()) or rinfo6.get('error') or not isinstance(rs6.get(ext), str):
+            continue     # that row is already reported under R2
+        p6, u6 = H.must_insert(prog, sl, Ei, h, ext, listing_of(lambda a: hroot(strip(a))))
+        mi_probs += ['extension %r: %s' % (ext, x) for x in p6]
+        mi_unknown += ['extension %r: %s' % (ext, x) for x in u6]
+    if mi_probs:
+        rep.violated('R6', 'reader/must-insert', hdw, 'a spec-shaped env file does not always become an entry: ' + '; '.join(sorted(set(mi_probs)))[:600])
+    elif mi_unknown:
+        rep.unproven('R6', 'reader/must-insert', hdw, 'not decided that every env file becomes an entry: ' + '; '.join(sorted(set(mi_unknown)))[:600])
+    else:
+        rep.holds('R6', 'reader/must-insert', hdw, 'for no extension / each of the five suffixes every listed non-directory entry reaches the insert')
+    rroot = L.param_pred(rf, 0)
+    Ed = Effects(prog, sl, vocab={L.R_DIR: ('READ_ENV_DIR', 0)})
+    launch = lambda a: L.comps(a, rroot) == ('env.launch',)
+    listed = 0
+    for e in Ed.expand(rf, 'may'):
+        if e.kind != 'READ_ENV_DIR' or e.path is None:
+            continue
+        pv = strip(e.path)
+        base_cs = L.comps(pv, rroot)
+        if base_cs is not None:
+            # a base scope directory is read iff it exists: every boolean decision the read runs under is an existence
+            # test of that directory itself (or of a directory above it)
+            scope = {v: k for k, v in SPEC_SCOPES.items()}.get(tuple(base_cs), '/'.join(map(str, base_cs)))
+            bad, odd = [], []
+            for cd, views, _ in guards_of(Ed, e):
+                if cd.kind != 'bool':
+                    continue
+                ok = other = False
+                for val, oc in views:
+                    val = strip(val)
+                    if val[0] == 'call' and len(val[2]) == 1 and (val[1] in SCOPE_DIR_TESTS or val[1] in H.FILE_TESTS):
+                        tcs = L.comps(val[2][0], rroot)
+                        if val[1] in SCOPE_DIR_TESTS and oc is True and tcs is not None and tuple(tcs) == tuple(base_cs)[:len(tcs)]:
+                            ok = True
+                        else:
+                            other = True
+                if not ok:
+                    (bad if other else odd).append(repr(cd))
+            dirname = '/'.join(map(str, base_cs))
+            if bad or not odd:
+                rep.check(not bad, 'R1', 'reader/scope-guard/' + scope, e.where(), 'the %s directory is read whenever it exists' % dirname,
+                          'reading %s depends on a file-system test of something else / with another outcome (%s): an environment persisted there '
+                          'is not read back when that does not hold' % (dirname, bad))
+            else:
+                rep.unproven('R1', 'reader/scope-guard/' + scope, e.where(), 'reading %s is conditional on %s, not recognised as an existence test of that directory' % (dirname, odd))
+            continue
+        ents = H.entry_elements(pv)
+        if not ents:
+            rep.unproven('R1', 'reader/process-dir-test', e.where(), 'directory read is neither a scope directory nor a listed entry: ' + vstr(pv)[:100])
+            continue
+        listed += 1
+        ok = False
+        foreign, odd = [], []
+        for cd, views, _ in guards_of(Ed, e):
+            if cd.kind == 'bool':
+                known = False
+                for val, oc in views:
+                    val = strip(val)
+                    if val[0] == 'call' and val[1] in DIR_TESTS and oc is True and (H.entry_elements(val) & ents):
+                        ok = known = True
+                    elif val[0] == 'call' and len(val[2]) == 1 and val[1] in SCOPE_DIR_TESTS and oc is True:
+                        tcs = L.comps(val[2][0], rroot)
+                        if tcs is not None and tuple(tcs) == ('env.launch',)[:len(tcs)]:
+                            known = True
+                if not known:
+                    # a decision that does not even look at the entry cannot be `is this a process directory`
+                    (odd if any(H.entry_elements(val) & ents for val, _ in views) else foreign).append(repr(cd))
+        if foreign:
+            rep.violated('R6', 'reader/process-guards', e.where(), 'whether a sub-directory of env.launch is read as a process environment depends on %s, '
+                         'which is not a property of that directory: process environments are silently not read back when it does not hold' % foreign)
+        elif odd:
+            rep.unproven('R6', 'reader/process-guards', e.where(), 'the process read is conditional on %s, not recognised as a directory test' % odd)
+        else:
+            rep.holds('R6', 'reader/process-guards', e.where(), 'every sub-directory of env.launch is read as a process environment (no further condition)')
+        rep.check(ok, 'R1', 'reader/process-dir-test', e.where(), 'only entries that are directories are read as process environments',
+                  'an entry of env.launch is read as a process directory without testing that it is a directory: '
+                  'reading an environment with launch-scope files fails (ENOTDIR)')
+        found, probs, unknown = H.completeness(Ed, e, listing_of(launch), allow_filter='file-type')
+        if probs:
+            rep.violated('R6', 'reader/every-process-dir', e.where(), 'not every process directory is read: ' + '; '.join(sorted(set(probs))))
+        elif unknown or not found:
+            rep.unproven('R6', 'reader/every-process-dir', e.where(), 'the process read is not recognised as running for every entry of env.launch: %s'
+                         % ('; '.join(unknown) or 'no iteration over read_dir(<layer>/env.launch) around it'))
+        else:
+            rep.holds('R6', 'reader/every-process-dir', e.where(), 'the listing of env.launch is visited to exhaustion')
+    if nested and not listed:
+        rep.unproven('R6', 'reader/every-process-dir', '%s:%d' % (rf.file, rf.line), 'no per-directory read of a listed entry of env.launch found')
+    for sc, f, bb, pv, kvs in H.LISTED_KEYS:
+        where = '%s:%d' % (f.file, f.line)
+        ks = [k[1][0] if (k is not None and k[0] == 'tuple' and len(k[1]) == 2) else k for k in kvs if k is not None]
+        if not ks:
+            rep.unproven('R1', 'reader/process-key', where, 'key under which a listed process directory is stored is not recognised')
+            continue
+        for k in ks:
+            pk = H.peel_name(sl, k)
+            ok = pk[0] == 'call' and pk[1] == 'std::path::Path::file_name' and len(pk[2]) == 1 and strip(pk[2][0]) == pv
+            rep.check(ok, 'R1', 'reader/process-key', where, 'process name = name of the directory, unmodified',
+                      'the process name is not the unmodified directory name: ' + vstr(k)[:120])
+    # ---- R7 anchor callers ---------------------------------------------------------------------------------
+    Ec = Effects(prog, sl, vocab={L.W_LAYER: ('WRITE_ENV', 1), L.R_LAYER: ('READ_ENV', 0)})
+    callers = prog.callers()
+    tops = []
+    ncall = 0
+    for nm in (L.W_LAYER, L.R_LAYER):
+        for c in callers.get(nm, []):
+            f = c.fn
+            if f.crate != wf.crate:
+                continue
+            ncall += 1
+            top = f
+            while top.kind == 'Closure' and top.parent in prog.fns:
+                top = prog.fns[top.parent]
+            if top not in tops:
+                tops.append(top)
+            if nm != L.W_LAYER:
+                continue
+            subj = _short(top)
+            if f.kind == 'Closure':
+                rep.unproven('R7', subj + '/unconditional', c.where(), 'write_to_layer_dir is called from a closure')
+                continue
+            sites = [s.bb for s in Ec.sites(f)]
+            must = [x for x, _ in Ec.must_calls(f, sites)]
+            rep.check(any(x is c for x in must), 'R7', subj + '/unconditional', c.where(), 'the layer env is written on every successful path',
+                      'write_to_layer_dir is skipped on some successful path of %s: the files of a previously written environment survive' % _short(f))
+            vd = verdict(result_fates(prog, f, c))
+            if vd == 'unproven':
+                rep.unproven('R7', subj + '/result', c.where(), 'what happens to the Result of write_to_layer_dir is not decided')
+            else:
+                rep.check(vd in ('ok', 'panics'), 'R7', subj + '/result', c.where(), 'a failed env write is propagated',
+                          'the Result of write_to_layer_dir is discarded')
+    rep.check(ncall >= 4, 'R7', 'callers', '%s:%d' % (wf.file, wf.line), '%d call sites of the layer env writer / reader in libcnb analysed' % ncall,
+              'only %d call sites of write_to_layer_dir / read_from_layer_dir found in libcnb (struct_api and trait_api each have a writer and a reader)' % ncall)
+    is_base = lambda v: v[0] in ('param', 'field')
+    for top in tops:
+        rep.analysed(top)
+        for e in Ec.expand(top, 'may'):
+            if e.kind not in ('WRITE_ENV', 'READ_ENV') or e.path is None:
+                continue
+            d = sl.inline_deep(e.path)
+            cs = L.comps(d, is_base)
+            ok = cs is not None and len(cs) == 1 and not isinstance(cs[0], str)
+            rep.check(ok, 'R7', '%s/layer-dir' % _short(top), e.where(), 'the env is %s <layers_dir>/<layer name>' % ('written to' if e.kind == 'WRITE_ENV' else 'read from'),
+                      'the directory handed to %s is not <layers_dir>/<layer name>: %s' % (e.call.name.split('::')[-1], vstr(d)[:120]))
